@@ -2,7 +2,7 @@
 
 use futures_core::Stream;
 
-use super::core::{AsyncWaiter, STATE_CANCELLED, STATE_WAITING};
+use super::core::{AsyncWaiter, STATE_CANCELLED, STATE_SUCCESS_SPACE, STATE_WAITING};
 use super::{AsyncReceiver, AsyncSender};
 use crate::error::{BatchSendErrorReason, SendBatchError, SendError, TrySendError};
 use crate::RecvError;
@@ -43,15 +43,20 @@ impl<'a, T: Send> SendFuture<'a, T> {
 impl<T: Send> Drop for SendFuture<'_, T> {
   fn drop(&mut self) {
     if self.is_registered {
-      let _ = self.state.compare_exchange(
+      let notified = self.state.compare_exchange(
         STATE_WAITING,
         STATE_CANCELLED,
         Ordering::SeqCst,
         Ordering::SeqCst,
-      );
+      ) == Err(STATE_SUCCESS_SPACE);
       let mut guard = self.sender.shared.internal.lock();
       let state_ptr = &self.state as *const AtomicU8;
       guard.waiting_async_senders.retain(|w| w.state != state_ptr);
+      drop(guard);
+      if notified {
+        // Woken for free space but dropped before using it: pass the wake on.
+        self.sender.shared.forward_send_wake();
+      }
     }
   }
 }
@@ -196,15 +201,20 @@ impl<'a, T: Send> SendBatchFuture<'a, T> {
 impl<T: Send> Drop for SendBatchFuture<'_, T> {
   fn drop(&mut self) {
     if self.is_registered {
-      let _ = self.state.compare_exchange(
+      let notified = self.state.compare_exchange(
         STATE_WAITING,
         STATE_CANCELLED,
         Ordering::SeqCst,
         Ordering::SeqCst,
-      );
+      ) == Err(STATE_SUCCESS_SPACE);
       let mut guard = self.sender.shared.internal.lock();
       let state_ptr = &self.state as *const AtomicU8;
       guard.waiting_async_senders.retain(|w| w.state != state_ptr);
+      drop(guard);
+      if notified {
+        // Woken for free space but dropped before using it: pass the wake on.
+        self.sender.shared.forward_send_wake();
+      }
     }
   }
 }
@@ -402,15 +412,20 @@ impl<'a, T: Send> SendBatchMutFuture<'a, T> {
 impl<T: Send> Drop for SendBatchMutFuture<'_, T> {
   fn drop(&mut self) {
     if self.is_registered {
-      let _ = self.state.compare_exchange(
+      let notified = self.state.compare_exchange(
         STATE_WAITING,
         STATE_CANCELLED,
         Ordering::SeqCst,
         Ordering::SeqCst,
-      );
+      ) == Err(STATE_SUCCESS_SPACE);
       let mut guard = self.sender.shared.internal.lock();
       let state_ptr = &self.state as *const AtomicU8;
       guard.waiting_async_senders.retain(|w| w.state != state_ptr);
+      drop(guard);
+      if notified {
+        // Woken for free space but dropped before using it: pass the wake on.
+        self.sender.shared.forward_send_wake();
+      }
     }
     if let Some(item) = self.pending.take() {
       self.items.insert(0, item);
@@ -633,17 +648,22 @@ impl<'a, T: Send> Future for RecvBatchFuture<'a, T> {
 impl<T: Send> Drop for RecvBatchFuture<'_, T> {
   fn drop(&mut self) {
     if self.is_registered {
-      let _ = self.state.compare_exchange(
+      let notified = self.state.compare_exchange(
         STATE_WAITING,
         STATE_CANCELLED,
         Ordering::SeqCst,
         Ordering::SeqCst,
-      );
+      ) == Err(STATE_SUCCESS_SPACE);
       let mut guard = self.receiver.shared.internal.lock();
       let state_ptr = &self.state as *const AtomicU8;
       guard
         .waiting_async_receivers
         .retain(|w| w.state != state_ptr);
+      drop(guard);
+      if notified {
+        // Woken for a queued item but dropped before taking it: pass the wake on.
+        self.receiver.shared.forward_recv_wake();
+      }
     }
   }
 }
@@ -730,17 +750,22 @@ impl<'a, T: Send> Future for RecvBatchMutFuture<'a, T> {
 impl<T: Send> Drop for RecvBatchMutFuture<'_, T> {
   fn drop(&mut self) {
     if self.is_registered {
-      let _ = self.state.compare_exchange(
+      let notified = self.state.compare_exchange(
         STATE_WAITING,
         STATE_CANCELLED,
         Ordering::SeqCst,
         Ordering::SeqCst,
-      );
+      ) == Err(STATE_SUCCESS_SPACE);
       let mut guard = self.receiver.shared.internal.lock();
       let state_ptr = &self.state as *const AtomicU8;
       guard
         .waiting_async_receivers
         .retain(|w| w.state != state_ptr);
+      drop(guard);
+      if notified {
+        // Woken for a queued item but dropped before taking it: pass the wake on.
+        self.receiver.shared.forward_recv_wake();
+      }
     }
   }
 }
@@ -819,18 +844,23 @@ impl<'a, T: Send> Future for RecvFuture<'a, T> {
 impl<T: Send> Drop for RecvFuture<'_, T> {
   fn drop(&mut self) {
     if self.is_registered {
-      let _ = self.state.compare_exchange(
+      let notified = self.state.compare_exchange(
         STATE_WAITING,
         STATE_CANCELLED,
         Ordering::SeqCst,
         Ordering::SeqCst,
-      );
+      ) == Err(STATE_SUCCESS_SPACE);
       // Eagerly unlink the waiter so the future's memory can be safely freed.
       let mut guard = self.receiver.shared.internal.lock();
       let state_ptr = &self.state as *const AtomicU8;
       guard
         .waiting_async_receivers
         .retain(|w| w.state != state_ptr);
+      drop(guard);
+      if notified {
+        // Woken for a queued item but dropped before taking it: pass the wake on.
+        self.receiver.shared.forward_recv_wake();
+      }
     }
   }
 }
@@ -845,6 +875,29 @@ impl<T: Send> Stream for AsyncReceiver<T> {
     let this = self.get_mut();
 
     if this.closed.load(Ordering::Relaxed) {
+      // The handle was closed while its stream was parked: leave the wait list,
+      // and if a sender had already notified this stream of a queued item, hand
+      // that notification to the next waiting receiver (same as `Drop`).
+      if this.is_registered {
+        this.is_registered = false;
+        let state_ptr = &*this.state as *const AtomicU8;
+        match this.state.compare_exchange(
+          STATE_WAITING,
+          STATE_CANCELLED,
+          Ordering::SeqCst,
+          Ordering::SeqCst,
+        ) {
+          Ok(_) => {
+            let mut guard = this.shared.internal.lock();
+            guard
+              .waiting_async_receivers
+              .retain(|w| w.state != state_ptr);
+          }
+          Err(STATE_SUCCESS_SPACE) => this.shared.forward_recv_wake(),
+          Err(_) => {}
+        }
+        this.state.store(STATE_WAITING, Ordering::Relaxed);
+      }
       return Poll::Ready(None);
     }
 
